@@ -433,9 +433,11 @@ def main():
     subprocess.run(["rm", "-rf", scratch])
     print("%s %s: %d scenarios, %d/%d obligations discharged, %d/%d structural checks ok, %d solver queries, solver %.1fs, wall %.1fs" % (prop, tier, len(jobs), discharged, obligations, structural_ok, structural_total, len(work), solver_s, wall))
     if new_viol:
-        for v, path in new_viol:
+        for v, path in new_viol[:12]:
             print("  violated: %s / %s : %s" % (v["scenario"], v["what"], v["detail"]))
             print("VIOLATION property=%s replay=%s" % (prop, path))
+        if len(new_viol) > 12:
+            print("  (+%d further violations, see evidence and replays/%s/)" % (len(new_viol) - 12, prop))
         sys.exit(1)
     if inconclusive:
         for m in inconclusive[:20]:
